@@ -95,6 +95,9 @@ func (m *TapeManager) openOrReuseReader() error {
 	m.readerLock.Lock()
 	defer m.readerLock.Unlock()
 
+	// Every reader owns the drive until `Close`, which always releases it: wait for the current owner
+	m.physicalLock.Lock()
+
 	reopen := false
 	if m.reader == nil {
 		reopen = true
@@ -104,8 +107,6 @@ func (m *TapeManager) openOrReuseReader() error {
 	}
 
 	if reopen {
-		m.physicalLock.Lock()
-
 		r, rr, err := OpenTapeReadOnly(m.drive)
 		if err != nil {
 			m.physicalLock.Unlock()
